@@ -56,6 +56,28 @@ Definition c13_case_scaled_np (pb pt : list nat) (base transformed : list Q) : n
          (length base =? length transformed)%nat;
          nlist_eqb pb pt && (length pb =? length base)%nat ].
 
+(* After a factor that is not a power of two the sums of the twin run carry rounding errors.  A leave-one-out sum is
+   formed as total - row - column + diagonal, so one that is exactly 0 in the base run (dyadic weights: exact) can
+   come out as a residual in the twin: where the base run holds 0/0 or x/0 the twin may hold any value, and "up to
+   floating-point rounding" says nothing there.  Where the base run holds a number, the twin must hold a number
+   close to it.  flag0 = close where both are numbers, flag2 = a number wherever the base has one. *)
+Fixpoint close_where_numbers (tol : Q) (pb pt : list nat) (b t : list Q) : bool :=
+  match pb, pt, b, t with
+  | p :: pb', q :: pt', x :: b', y :: t' =>
+      (if (p =? 0)%nat && (q =? 0)%nat then Qleb (Qabs (x - y)) tol else true) && close_where_numbers tol pb' pt' b' t'
+  | _, _, _, _ => true
+  end.
+Fixpoint numbers_kept (pb pt : list nat) : bool :=
+  match pb, pt with
+  | p :: pb', q :: pt' => (if (p =? 0)%nat then (q =? 0)%nat else true) && numbers_kept pb' pt'
+  | _, _ => true
+  end.
+Definition c13_case_rounded_np (pb pt : list nat) (base transformed : list Q) : nat :=
+  let m := qabsmax base in
+  code [ close_where_numbers ((1 # 1099511627776) * m) pb pt base transformed;
+         (length base =? length transformed)%nat && (length pb =? length base)%nat && (length pt =? length base)%nat;
+         numbers_kept pb pt ].
+
 (* ---------- the stored form of a pair-count table (PatchedCounts.to_hdf / from_hdf) ---------- *)
 (* One row per patch pair: the counts in every redshift bin.  The file keeps the rows selected by [keep]; reading
    starts from zeros and puts the kept rows back.  The selection of the code is "some bin is not zero"
